@@ -27,4 +27,32 @@ TEXT['C02'] = dict(
     note=TIE + ' The graph-level statement (parents of the imported commit, pruned commit contracted onto its first parent, roots stay roots) additionally relies on the stream-level correspondence and the importer contract.',
     technique='Lean 4 theorems (case analysis of the decision table; induction over parent lists); exhaustive + generated differential correspondence')
 
+STREAM = (' Stream level: the line-by-line Lean model of the main loop (Filter.runBytes) is compared with the real tool under '
+          '--dry-run --fe_stream_override on generated histories × option sets (status, filtered stream, commit-map, ref-map byte for byte), '
+          'and the property is evaluated as a decidable oracle in Lean (Frrs/Oracle.lean, through the importer contract Frrs/Import.lean) on the implementation\'s own output for every generated case.')
+TEXT['C01'] = dict(
+    text='Lean theorems: the expected tree (selected, renamed, unstripped entries with mode and blob carried over) is sound and complete w.r.t. the selectors; one change line keeps mode and object id and gets the renamed path the importer reads back (from C15); renames apply in order; and the command-level simulation (Frrs.Sim.tree_simulation, by induction over the commit list with a lock-step invariant): for every well-formed commit list and every rename injective on kept paths each commit has an image whose tree is the selected, renamed original tree, pruned commits through their alias.' + STREAM,
+    note=TIE + ' The simulation theorem is about an abstract command-level filter that shares the blueprint of the byte-level model; that link and the byte-level model\'s fidelity are tested (oracle on every generated case), not proved. Guards: RenameOk, control-free paths, no file<->directory swap inside one commit.',
+    technique='Lean 4 simulation proof (invariant by induction over the commit list) + tree-algebra commutation lemma; stream-level differential correspondence with a Lean oracle on implementation output')
+TEXT['C03'] = dict(
+    text='Lean theorems: ref renaming is prefix substitution inside its namespace and never touches refs outside refs/heads and refs/tags; a pruned commit emits alias + reset of its header ref onto the surviving ancestor (the F1 repair, proved for every ref name); deferred lightweight-tag resets: first reset per ref wins, annotated names are skipped.' + STREAM + ' The oracle checks every exported ref: exists under its new name, ends on the image of its target, annotated tags stay tag objects with tagger and rewritten message, no ref invented.',
+    note=TIE + ' The finalize half (update-ref batch, deletion of old names, refs outside the export selection) is observed by the end-to-end runs only. Guard: ref renaming does not merge two exported names.',
+    technique='Lean 4 theorems over the ref/alias/tag-reset logic; stream-level differential correspondence with a Lean oracle over the importer contract')
+TEXT['C06'] = dict(
+    text='Lean theorems: the size limit is strict (exactly the limit stays, one byte more goes), id lookup is exact and case-insensitive, without options nothing is stripped, a stripped M line becomes a deletion of the selected and renamed path (composition with path filtering, the F3 repair), kernel-evaluated runs of the blob branch at n-1, n, n+1.' + STREAM + ' The tree oracle uses strippedBlob: a stripped version is absent, never replaced by an older one.',
+    note=TIE + ' cat-file sizes for id-referenced blobs (--no-data) are a parameter of the model.',
+    technique='Lean 4 theorems + kernel-evaluated boundary runs; stream-level differential correspondence with a Lean tree oracle')
+TEXT['C08'] = dict(
+    text='Lean theorems: with neutral options every ingredient is the identity as the importer reads it — any exporter rendering of a control-free path is re-emitted as a field git reads back to the same bytes with mode and id untouched, messages, identity lines and blobs are byte-identical, no ref is renamed, nothing is stripped and with pruning disabled no commit is dropped.' + STREAM + ' (neutral mode: import(filtered) must equal import(original) commit by commit, ref by ref).',
+    note=TIE + ' The composition over a whole stream and the equality of object ids are tested (oracle, end-to-end for-each-ref before/after), resting on the importer contract and on SHA-1 being a function of content. F12 (file replaced by directory in one commit) is a recorded finding: git 2.39.5 itself loses data there.',
+    technique='Lean 4 identity lemmas per ingredient; stream-level differential correspondence with a Lean oracle (neutral options)')
+TEXT['C09'] = dict(
+    text='Lean theorems: commit-map has one line per recorded pair in stream order, the zero id exactly for a dropped pair and the marks-file id for a kept one; the end of a commit records exactly one pair for its original id — (id, mark) if kept, (id, none) if dropped — and clears the slot; the rename set is a set.' + STREAM + ' The oracle checks: one line per exported commit in order, each resolving to the commit that is its image, zero iff dropped; ref-map = exactly the refs whose name changed.',
+    note=TIE + ' In the dry-run correspondence the importer\'s marks file is synthetic; the real one is used end to end. Stale map/marks files of earlier runs are exercised end to end.',
+    technique='Lean 4 theorems over the pair bookkeeping and map rendering; stream-level differential correspondence with a Lean oracle')
+TEXT['C10'] = dict(
+    text='Lean theorems, for every input, option set and fuel: a run reports success only from a state that read the terminating done line (loop_ok_sawDone); the empty stream fails; read_exact consumes exactly N bytes or aborts (so payload bytes such as "done" cannot terminate the stream); data headers above 500 MB or malformed abort. Correspondence: every cut offset and every single-line deletion/duplication/garbling and wrong data lengths of generated streams through the real tool vs the model.',
+    note=TIE + ' That both child statuses are checked before any ref/HEAD/index mutation is an obligation over the extracted step table; importer behaviour on a stream without done is a validated contract. Real-import cut runs are part of the end-to-end tier.',
+    technique='Lean 4 invariant by induction over the loop (success implies done was read) + reader framing lemmas; exhaustive cut/corruption differential correspondence')
+
 NOT_YET = {}
